@@ -1760,6 +1760,182 @@ def resample_items(g, ft, dm):
            lambda: [get_def(ft, 'fourier_resample'), get_def(dm, 'fourier_resample_backprop')], build, FB)
 
 
+# ------------------------------------------------------------------------------------------------
+# session 3b: Wavefront-level *_backprop methods -> function-level routines (argument roles, returned labels), and the
+# live-attribute obligation over EVERY forward / backprop method pair of the anchor modules (discovered, not listed)
+# ------------------------------------------------------------------------------------------------
+def wrapper_items(g, pr):
+    def bound(method, callee):
+        fn = get_def(pr, f'Wavefront.{method}')
+        calls = find_calls(fn, callee)
+        if len(calls) != 1:
+            raise Untranslatable(f'Wavefront.{method}: {len(calls)} calls of {callee}')
+        c = calls[0]
+        params = [a.arg for a in get_def(pr, callee).args.args]
+        if len(c.args) > len(params):
+            raise Untranslatable('too many positional arguments')
+        b = {params[k]: a for k, a in enumerate(c.args)}
+        for k in c.keywords:
+            if k.arg is None or k.arg in b or k.arg not in params:
+                raise Untranslatable(f'keyword {k.arg}')
+            b[k.arg] = k.value
+        return fn, b
+
+    def nums(b, names, env):
+        out = []
+        for nm in names:
+            if nm not in b:
+                raise Untranslatable(f'argument {nm} not passed')
+            out.append(Tr(env, mode='rat').expr(b[nm]))
+        return '[' + ', '.join(out) + ']'
+
+    def tags(b, names):
+        return '[' + ', '.join('"' + (ast.unparse(b[nm]) if nm in b else '<default>') + '"' for nm in names) + ']'
+
+    def ret_wavefront(fn, env):
+        """(dx term, space text) of the Wavefront returned by the last plain `return Wavefront(...)`"""
+        rets = [r for r in find_returns(fn) if isinstance(r, ast.Call) and ast.unparse(r.func) == 'Wavefront']
+        if not rets:
+            raise Untranslatable('no return Wavefront(...)')
+        r = rets[-1]
+        sig = ['cmplx_field', 'wavelength', 'dx', 'space']
+        b = {sig[k]: a for k, a in enumerate(r.args)}
+        b.update({k.arg: k.value for k in r.keywords})
+        return Tr(env, mode='rat').expr(b['dx']), ast.unparse(b['space'])
+
+    PQ = '(p q efl wl : Rat)'
+
+    def ffs():
+        ff, fb_ = bound('focus_fixed_sampling', 'focus_fixed_sampling')
+        bf, bb = bound('focus_fixed_sampling_backprop', 'focus_fixed_sampling_backprop')
+        # forward: called on the pupil wavefront (self.dx = p) with dx = q;  backprop: called on the psf-plane gradient
+        # (self.dx = q) with dx = p (the pupil sampling)
+        ef = {'self.dx': 'p', 'dx': 'q', 'efl': 'efl', 'self.wavelength': 'wl'}
+        eb = {'self.dx': 'q', 'dx': 'p', 'efl': 'efl', 'self.wavelength': 'wl'}
+        N = ['input_dx', 'prop_dist', 'wavelength', 'output_dx']
+        T = ['wavefunction', 'output_samples', 'shift', 'method']
+        dxr, sp = ret_wavefront(bf, eb)
+        return (f'def wfFfsFwdNum {PQ} : List Rat := {nums(fb_, N, ef)}\n'
+                f'def wfFfsBackNum {PQ} : List Rat := {nums(bb, N, eb)}\n'
+                f'def wfFfsFwdPass : List String := {tags(fb_, T)}\n'
+                f'def wfFfsBackPass : List String := {tags(bb, T)}\n'
+                f'def wfFfsBackRetDx {PQ} : Rat := {dxr}\n'
+                f'def wfFfsBackRetSpace : String := {json_str(sp)}\n')
+    g.item('Wavefront.focus_fixed_sampling_backprop', 'prysm/propagation.py:Wavefront.focus_fixed_sampling_backprop',
+           lambda: [get_def(pr, 'Wavefront.focus_fixed_sampling'), get_def(pr, 'Wavefront.focus_fixed_sampling_backprop')], ffs,
+           f'def wfFfsFwdNum {PQ} : List Rat := [p, efl, wl, q]\ndef wfFfsBackNum {PQ} : List Rat := [p, efl, wl, q]\n'
+           'def wfFfsFwdPass : List String := ["self.data", "samples", "shift", "method"]\n'
+           'def wfFfsBackPass : List String := ["self.data", "samples", "shift", "method"]\n'
+           f'def wfFfsBackRetDx {PQ} : Rat := p\ndef wfFfsBackRetSpace : String := "\'pupil\'"\n')
+
+    PF = '(p fdx efl wl : Rat)'
+
+    def fpm():
+        ff, fb_ = bound('to_fpm_and_back', 'to_fpm_and_back')
+        bf, bb = bound('to_fpm_and_back_backprop', 'to_fpm_and_back_backprop')
+        e = {'self.dx': 'p', 'fpm_dx': 'fdx', 'efl': 'efl', 'self.wavelength': 'wl'}
+        N = ['dx', 'wavelength', 'efl', 'fpm_dx']
+        T = ['wavefunction', 'fpm', 'method', 'shift', 'return_more']
+
+        def more(fn):
+            """return_more branch: the names the tuple is unpacked into, the names returned, the dx each is labelled with"""
+            unpack = ret = None
+            label = {}
+            for n in ast.walk(fn):
+                if isinstance(n, ast.Assign) and isinstance(n.targets[0], ast.Tuple) and ast.unparse(n.value) == 'pak':
+                    unpack = [ast.unparse(x) for x in n.targets[0].elts]
+                if isinstance(n, ast.Assign) and isinstance(n.targets[0], ast.Name) and isinstance(n.value, ast.Call) \
+                        and ast.unparse(n.value.func) == 'Wavefront' and len(n.value.args) >= 3 \
+                        and ast.unparse(n.value.args[0]) == n.targets[0].id:
+                    label[n.targets[0].id] = Tr(e, mode='rat').expr(n.value.args[2])
+                if isinstance(n, ast.Return) and isinstance(n.value, ast.Tuple):
+                    ret = [ast.unparse(x) for x in n.value.elts]
+            if unpack is None or ret is None or set(unpack) != set(ret) or any(x not in label for x in ret):
+                raise Untranslatable('return_more branch not in the recognised shape')
+            return [unpack.index(x) for x in ret], [label[x] for x in ret]
+        po, pl = more(bf)
+        dxr, sp = ret_wavefront(bf, e)
+        return (f'def wfFpmFwdNum {PF} : List Rat := {nums(fb_, N, e)}\n'
+                f'def wfFpmBackNum {PF} : List Rat := {nums(bb, N, e)}\n'
+                f'def wfFpmFwdPass : List String := {tags(fb_, T)}\n'
+                f'def wfFpmBackPass : List String := {tags(bb, T)}\n'
+                f'def wfFpmBackMoreOrder : List Nat := [{", ".join(map(str, po))}]\n'
+                f'def wfFpmBackMoreDx {PF} : List Rat := [{", ".join(pl)}]\n'
+                f'def wfFpmBackRetDx {PF} : Rat := {dxr}\n')
+    g.item('Wavefront.to_fpm_and_back_backprop', 'prysm/propagation.py:Wavefront.to_fpm_and_back_backprop',
+           lambda: [get_def(pr, 'Wavefront.to_fpm_and_back'), get_def(pr, 'Wavefront.to_fpm_and_back_backprop')], fpm,
+           f'def wfFpmFwdNum {PF} : List Rat := [p, wl, efl, fdx]\ndef wfFpmBackNum {PF} : List Rat := [p, wl, efl, fdx]\n'
+           'def wfFpmFwdPass : List String := ["self.data", "fpm", "method", "shift", "return_more"]\n'
+           'def wfFpmBackPass : List String := ["self.data", "fpm", "method", "shift", "return_more"]\n'
+           f'def wfFpmBackMoreOrder : List Nat := [0, 1, 2]\ndef wfFpmBackMoreDx {PF} : List Rat := [p, fdx, fdx]\n'
+           f'def wfFpmBackRetDx {PF} : Rat := p\n')
+
+
+def json_str(t):
+    return '"' + t.replace('\\', '\\\\').replace('"', '\\"') + '"'
+
+
+def live_general_item(g, repo):
+    """EVERY class of the anchor modules with a forward / backprop method pair (`forward*`/`backprop*`, `X`/`X_backprop`):
+    each `self.attr` the backprop reads is read or written by its forward (directly or through a helper method of the class), is a
+    method / property, or is on the short allow list.  The pairs are discovered from the source, so a new node is covered as it appears."""
+    MODS = ['prysm/x/optym/activation.py', 'prysm/x/optym/operators.py', 'prysm/x/optym/cost.py', 'prysm/x/dm.py',
+            'prysm/propagation.py', 'prysm/fttools.py', 'prysm/polynomials/__init__.py']
+    ALLOW = {('DM', 'invprojx'), ('DM', 'invprojy'), ('DM', 'ifn'),          # rotation coordinates (out of scope), shape only
+             ('MatrixDFTExecutor', 'Ein'), ('MatrixDFTExecutor', 'Eout'),    # the basis cache, filled under the same key by both
+             ('Wavefront', 'space'), ('Wavefront', 'dx'), ('Wavefront', 'wavelength')}   # primary public labels copied onto the returned container
+
+    def attrs(fn, ctx_type):
+        return {n.attr for n in ast.walk(fn) if isinstance(n, ast.Attribute) and isinstance(n.value, ast.Name)
+                and n.value.id == 'self' and isinstance(n.ctx, ctx_type)}
+
+    def build():
+        pairs, stale, hooked = [], [], []
+        for rel in MODS:
+            mod, _ = load(repo, rel)
+            for c in mod.body:
+                if not isinstance(c, ast.ClassDef):
+                    continue
+                meth = {n.name: n for n in c.body if isinstance(n, ast.FunctionDef)}
+                for bname, b in meth.items():
+                    if 'backprop' not in bname:
+                        continue
+                    cands = [bname.replace('backprop', 'forward'), bname.replace('_backprop', ''), bname.replace('backprop_', 'forward_')]
+                    if bname.startswith('from_amp_and_phase_backprop'):
+                        cands.append('from_amp_and_phase')
+                    fname = next((x for x in cands if x in meth and x != bname), None)
+                    if fname is None:
+                        stale.append(f'{c.name}.{bname}: no forward counterpart found')
+                        continue
+                    if '__setattr__' in meth or '__getattr__' in meth:
+                        hooked.append(f'{c.name}.{fname}/{bname}')
+                        continue
+                    f = meth[fname]
+                    live = attrs(f, ast.Load) | attrs(f, ast.Store) | set(meth)
+                    seen, todo = set(), [f]
+                    while todo:                       # helper methods of the class called (transitively) by the forward
+                        h = todo.pop()
+                        for n in ast.walk(h):
+                            if isinstance(n, ast.Call) and isinstance(n.func, ast.Attribute) and isinstance(n.func.value, ast.Name) \
+                                    and n.func.value.id == 'self' and n.func.attr in meth and n.func.attr not in seen:
+                                seen.add(n.func.attr)
+                                live |= attrs(meth[n.func.attr], ast.Load) | attrs(meth[n.func.attr], ast.Store)
+                                todo.append(meth[n.func.attr])
+                    if any(isinstance(d, ast.Name) and d.id == 'classmethod' for d in f.decorator_list):
+                        live |= {'wavelength', 'data', 'dx', 'space'} if c.name == 'Wavefront' else set()   # a constructor: its product's fields
+                    pairs.append(f'{c.name}.{fname}/{bname}')
+                    for a in sorted(attrs(b, ast.Load) - live):
+                        if (c.name, a) not in ALLOW:
+                            stale.append(f'{c.name}.{bname} reads self.{a}')
+        fmt = lambda l: '[' + ', '.join(json_str(x) for x in l) + ']'
+        return (f'def liveAttributePairs : List String := {fmt(sorted(pairs))}\n'
+                f'def backpropStaleReads : List String := {fmt(sorted(stale))}\n'
+                f'def liveAttributeHooked : List String := {fmt(sorted(hooked))}\n')
+    g.item('backprop.live_attributes_all', 'prysm/x/optym/activation.py + operators.py + x/dm.py + propagation.py + fttools.py',
+           lambda: [load(repo, rel)[0] for rel in MODS], build,
+           'def liveAttributePairs : List String := []\ndef backpropStaleReads : List String := []\ndef liveAttributeHooked : List String := []\n')
+
+
 def generate(repo):
     g = Gen('C06', imports=['PrysmVerif.PyPrelude', 'PrysmVerif.Model.C06'],
             header='set_option linter.unusedVariables false')
@@ -1783,6 +1959,8 @@ def generate(repo):
     padcrop_items(g, repo)
     live_attribute_items(g, ac, dm)
     flatten_order_items(g, po, ac, co, dm)
+    wrapper_items(g, pr)
+    live_general_item(g, repo)
     return g.finish()
 
 
